@@ -568,7 +568,8 @@ Verdict propNestedIteration(Ctx& c) {
     }
     case 5: {
       if (seq.empty()) break;
-      const StructuredData& first = *L.B().begin();
+      const auto firstIt = L.B().begin();  // the iterator stays alive, so the reference is valid for a stashing iterator too
+      const StructuredData& first = *firstIt;
       size_t i = 0;
       for (const auto& x : L2.B()) { if (i % stride == 0) CHECK(elemIs(x, i), "nested-iteration", "element " + std::to_string(i) + " wrong"); ++i; }
       CHECK(elemIs(first, 0), "nested-iteration", "the first element changed during a pass over the same set");
